@@ -3,6 +3,7 @@
 -/
 import SolverzModel.Core.Ctl.Rodas
 import SolverzModel.Proofs.Rodas
+import SolverzModel.Proofs.RodasRun
 namespace Solverz
 open RodasEnv
 
@@ -35,5 +36,49 @@ theorem C09_reject_keeps_output {α} (E : RodasEnv α) (err fac0 : α) (s : Roda
     (h1 : E.O.lt (E.O.abs s.dt) E.uround = false) (h2 : ¬ s.reject > 100) (hr : E.O.le err E.O.one = false) :
     (E.attempt err fac0 s).T = s.T ∧ (E.attempt err fac0 s).t = s.t :=
   ⟨((attempt_accept_iff E err fac0 s hf h1 h2).2 hr).2.2.1, ((attempt_accept_iff E err fac0 s hf h1 h2).2 hr).2.2.2.1⟩
+
+/-! ### whole runs: two requested nodes, no event functions, adaptive mode, exact arithmetic -/
+
+/-- **Every run, whatever the error estimates.**  For every script of (error estimate, step factor) pairs — that is,
+for every problem and tolerance — the times emitted by the controller, in chronological order,
+start at `t0`, increase strictly and never pass `tend`; the current time is the last emitted one; no attempted
+step exceeds `hmax`; and a run that ends without a reported failure and below the 10 000-step cap ends within
+`uround` of `tend` from below (exactly at `tend` when its last accepted step was the stretched one, `C09_end_is_tend`). -/
+theorem C09_run_times (E : RodasEnv ℚ) (H : RunHyp E) (script : List (ℚ × ℚ)) :
+    (E.run script E.init).T.reverse.head? = some E.t0 ∧
+    (E.run script E.init).T.reverse.Pairwise (· < ·) ∧
+    (∀ τ ∈ (E.run script E.init).T, E.t0 ≤ τ ∧ τ ≤ E.tend) ∧
+    (E.run script E.init).T.head? = some (E.run script E.init).t ∧
+    (E.run script E.init).dt ≤ E.hmaxV ∧
+    ((E.run script E.init).done = true → (E.run script E.init).failed = false → (E.run script E.init).T.length ≠ 10001 →
+      0 ≤ E.tend - (E.run script E.init).t ∧ E.tend - (E.run script E.init).t < E.uround) := by
+  have I := H.run_inv script E.init H.init_inv
+  refine ⟨?_, ?_, ?_, I.head, I.dt_max, ?_⟩
+  · rw [List.head?_reverse]; exact I.last
+  · rw [List.pairwise_reverse]; exact I.incr
+  · intro τ hτ
+    have := pairwise_gt_bounds _ _ _ I.incr I.head I.last τ hτ
+    exact ⟨this.1, le_trans this.2 I.le_tend⟩
+  · intro hd hf hc
+    rcases I.finished hd with h | h | h
+    · rw [hf] at h; cases h
+    · exact absurd h hc
+    · exact h
+
+/-- the step actually attempted from any reached state is at most `hmax` -/
+theorem C09_run_step_le_hmax (E : RodasEnv ℚ) (H : RunHyp E) (script : List (ℚ × ℚ)) :
+    E.stepDt (E.run script E.init) ≤ E.hmaxV :=
+  stepDt_le_hmax E H.hO H.hh _ H.hf (H.run_inv script E.init H.init_inv).dt_max
+
+/-- non-vacuity: the hypotheses are met by a concrete environment (tspan [0, 1], uround 2⁻⁵², hmax = span) and a
+three-attempt script (accept, reject, accept) ends with three emitted times -/
+example : ∃ E : RodasEnv ℚ, RunHyp E ∧ (E.run [(1/2, 2), (3, 1/2), (1/4, 2)] E.init).T.length = 3 := by
+  refine ⟨{ O := ratO, spacing := fun _ => 1 / 4503599627370496, uround := 1 / 4503599627370496, tiny := 1 / 1000000, half := 1 / 2,
+            c128 := 128, tspan := [0, 1],
+            opt := { fac1 := 1 / 5, fac2 := 6, facmax := 6, hinit := some (1 / 10), hmax := none, fixH := false, eventDuration := 0 },
+            events := [] }, ⟨rfl, rfl, rfl, by decide, rfl, by norm_num, ?_, ?_, ?_⟩, by decide +kernel⟩
+  · decide +kernel
+  · decide +kernel
+  · decide +kernel
 
 end Solverz
